@@ -38,6 +38,8 @@ def fl(x):
 
 
 MODE = 'float'   # 'int': integral coordinates are passed as Python ints (set per family by the explorer)
+FORM = 'A'       # 'B': operands are built through the alternative public constructor forms (Line(P,P), HalfLine(P,P),
+                 #      Segment(P,V), Plane(a,b,c,d) general form), 'C': Plane from three points / Line(V,V)
 
 
 def _num(c):
@@ -113,12 +115,38 @@ def construct(kind, fn):
         raise ConstructionFailed((kind,), e)
 
 
+def _alt_form(o):
+    """the same exact object through another public constructor form (None: no alternative for this type)."""
+    k = o[0]
+    if k == 'Line':
+        if FORM == 'B':
+            return Line(P(o[1]), P(X.add(o[1], o[2])))
+        return Line(V(o[1]), V(o[2]))
+    if k == 'HalfLine':
+        return HalfLine(P(o[1]), P(X.add(o[1], o[2])))
+    if k == 'Segment':
+        return Segment(P(o[1]), V(X.sub(o[2], o[1])))
+    if k == 'Plane':
+        n = o[2]
+        if FORM == 'B':
+            return Plane(_num(n[0]), _num(n[1]), _num(n[2]), _num(X.dot(n, o[1])))
+        e = next(e for e in ((1, 0, 0), (0, 1, 0), (0, 0, 1)) if not X.is_zero(X.cross(n, e)))
+        u = X.cross(n, e)
+        w = X.cross(n, u)
+        return Plane(P(o[1]), P(X.add(o[1], u)), P(X.add(o[1], w)))
+    return None
+
+
 def _to_lib(o):
     if o is None:
         return None
     k = o[0]
     if k == 'Point':
         return P(o[1])
+    if FORM != 'A':
+        r = _alt_form(o)
+        if r is not None:
+            return r
     if k == 'Line':
         return Line(P(o[1]), V(o[2]))
     if k == 'HalfLine':
@@ -343,3 +371,14 @@ def canon(r):
     except Exception as e:
         return 'uncanonical %s: %s' % (type(r).__name__, e)
     return describe(r)
+
+
+def use_point_elsewhere(pt):
+    """legal earlier uses of a caller-owned Point: lines built from it are moved, it is hashed and read.
+    Constructors that take Points must not let any of this leak back into the Point."""
+    l = Line(pt, Vector(1.0, 2.0, 3.0))
+    l.move(Vector(0.5, -4.0, 2.0))
+    l2 = Line(pt, Point(float(pt[0]) + 1.0, float(pt[1]) - 2.0, float(pt[2]) + 0.5))
+    l2.move(Vector(-3.0, 1.0, 1.0))
+    hash(pt), list(pt.pv()), repr(pt)
+    return pt
